@@ -76,8 +76,8 @@ the frame column is non-decreasing afterwards.  (Checked by the driver on every 
 def SortPerm (σ : List Nat) (rows : List Row) : Prop :=
   σ.Perm (List.range rows.length) ∧ (sortedTable σ rows).Pairwise (fun a b => a.frame ≤ b.frame)
 
-instance (σ : List Nat) (rows : List Row) : Decidable (SortPerm σ rows) := by
-  unfold SortPerm; exact inferInstance
+instance (σ : List Nat) (rows : List Row) : Decidable (SortPerm σ rows) :=
+  inferInstanceAs (Decidable (_ ∧ _))
 
 /-! ## coords_from_df -/
 
